@@ -4,7 +4,7 @@ import PoxModel.Proofs.ActionsSer
 the frame well-formed.  Core only.
 -/
 namespace Pox.Actions
-open Pox Pox.Packet Pox.Checksum Pox.Layout Pox.Actions.Spec
+open Pox Pox.Packet Pox.Checksum Pox.PktLayout Pox.Actions.Spec
 
 /-- action arguments as the OpenFlow wire format delivers them (6-byte addresses, 32-bit IPv4 addresses, 8-bit ToS,
 16-bit ports); VLAN arguments need no condition, they are reduced to the field width -/
